@@ -242,6 +242,8 @@ class Impl:
             net = self.GeoNetwork(grid=self.grid(c), directed=c.directed,
                                   node_weight_type=[None, "surface", "irrigation"][c.wtype],
                                   silence_level=3, **kw)
+        if c.cls != "net" and w is not None:
+            net.node_weights = w          # the constructors of these classes take no weights
         if c.V is not None:
             net.set_link_attribute(ATTR, np.array([[float(x) for x in r] for r in c.V]))
         return net
@@ -348,7 +350,7 @@ def expected(c):
          "graph": canon_edges(pairs, directed), "directed": directed}
     if N >= 2:
         e["link_density"] = Fraction(nl, N * (N - 1)) if directed else Fraction(2 * nl, N * (N - 1))
-    if c.cls == "geo":
+    if c.cls == "geo" and w is None:
         cl = np.cos(np.array(c.lats, dtype=np.float32) * np.pi / 180)
         wf = [np.ones(N), cl, np.square(cl)][c.wtype]
         w = [exact(x) for x in wf]
@@ -534,12 +536,16 @@ def cases_for(rng, N, directed, edges, quick, rich):
     add(cls="spatial", form="list", **dense, **nov)
     add(cls="spatial", ctor="edges", form="upper", edges=list(edges), n_nodes=N, **nov)
     add(cls="spatial", form="list", ops=["loadspatial:" + rng.choice(fmts)], **dense, **nov)
+    add(cls="spatial", form="list", ops=["loadspatial:" + rng.choice(fmts)], **dense)
+    add(cls="spatial", form="list", ops=["copy"], **dense)
     lats = [rng.choice([0.0, 60.0, -60.0, 45.0, 30.0]) for _ in range(N)]
     for wt in ((0, 1, 2) if rich else rng.sample((0, 1, 2), 2)):
         add(cls="geo", wtype=wt, lats=lats, form="list", **dense, **nov)
     add(cls="geo", wtype=rng.choice((0, 1)), lats=lats, form="list",
         ops=["loadgeo:" + rng.choice(fmts)], **dense, **nov)
     add(cls="geo", wtype=1, lats=lats, form="list", ops=["copy"], **dense, **nov)
+    add(cls="geo", wtype=rng.choice((0, 1, 2)), lats=lats, form="list",
+        ops=["loadgeo:" + rng.choice(fmts)], **dense)
     return out
 
 
@@ -622,7 +628,7 @@ def run(ctx):
 
         reqs, answers, results = [], [], []
         for c in cases:
-            if c.cls == "geo" and c.wtype == 2:
+            if c.cls == "geo" and c.wtype == 2 and c.w is None:
                 corr = False      # float32 squares are not the exact squares: oracle only
             else:
                 corr = True
